@@ -24,11 +24,17 @@ CALLVALUE = BitVec("msg_value", 256)
 def mk_args(**overrides):
     args = default_config()
     if overrides:
-        args = args.with_overrides(source="verif-harness", **overrides)
+        from halmos.config import ConfigSource
+
+        args = args.with_overrides(source=ConfigSource.command_line, **overrides)
     return args
 
 
 def mk_sevm(args=None, **overrides):
+    from halmos.mapper import BuildOut
+
+    if BuildOut()._build_out_map is None:  # normally set by halmos' _main from forge's out/ directory
+        BuildOut().set_build_out({})
     args = args or mk_args(**overrides)
     return SEVM(args, FunctionInfo("TestContract", "test", "test()", "f8a8fd6d")), args
 
